@@ -1,4 +1,5 @@
 """Construction of scikit_tt objects from JSON-able specs (harness side; uses only TT(list_of_cores))."""
+import os
 import numpy as np
 from scikit_tt.tensor_train import TT
 from vt import dense
@@ -96,8 +97,15 @@ def require_consistent(t, clause='consistent'):
         raise Violation(clause, msg)
 
 
-def require_unchanged(t, snap, what):
+def require_unchanged(t, snap, what, strict=False):
+    """strict: the statement says the object is "not modified" / "left unchanged" (C11, C16, C17) -- then the cores themselves must
+    be what they were, bit by bit; otherwise (the statement speaks of the operand's VALUE, C06) a re-gauging is not a change"""
     msg = unchanged(t, snap)
+    if not msg and (strict or os.environ.get('VERIF_STRICT_UNCHANGED')):
+        for k, (a, b) in enumerate(zip(t.cores, snap[0])):
+            if a.shape != b.shape or a.dtype != b.dtype or not np.array_equal(a, b, equal_nan=True):
+                msg = 'core %d was rewritten (the tensor it represents is the same up to rounding)' % k
+                break
     if msg:
         raise Violation('operand_unchanged', '%s: %s' % (what, msg))
 
